@@ -39,6 +39,7 @@ type LFSM struct {
 }
 
 func (fsm *LFSM) Update(entries []dbsm.Entry) ([]dbsm.Entry, error) {
+	verifUpdate(fsm.clusterID, fsm.nodeID, entries)
 	for i, ent := range entries {
 		var update Update
 		if err := json.Unmarshal(ent.Cmd, &update); err != nil {
